@@ -391,6 +391,15 @@ def stateful (s : St) (toks : List String) : Option (St × String) :=
   | ["w.q", "archiveCount", f] => do pure (s, toString (s.w.archiveCount (← f.toNat?)))
   | ["w.q", "elsewhere", f, n] => do pure (s, toString (s.w.archiveCountElsewhere (← f.toNat?) (← n.toNat?)))
   | ["w.q", "updateDelete", n] => do pure (s, encNats (s.w.updateDelete (← n.toNat?)))
+  | ["w.q", "updateDeleteSized", n, sizes] => do
+      -- same as World.updateDelete but with the copy rows' own size_b (not part of the World model) supplied by the harness
+      let n ← n.toNat?
+      let sz ← decRecs (fun l => match l with | [a, b] => do pure ((← a.toNat?), (← b.toNat?)) | _ => none) sizes
+      match s.w.node? n with
+      | none => pure (s, "-")
+      | some nd =>
+        let dcs := (s.w.dcopiesOf n).map (fun d => { d with size := (sz.find? (fun p => p.1 == d.id)).map (·.2) })
+        pure (s, encNats ((selectDelete nd.availKiB nd.minKiB (nd.stype == .A) (fun f => s.w.pendingSource f n) dcs).map (·.id)))
   | ["w.q", "groupState", g, f] => do pure (s, (s.w.groupState (← g.toNat?) (← f.toNat?)).toString)
   | ["w.dump"] => some (s, worldDump s.w)
   | ["q.reset", keys] => do
